@@ -467,6 +467,24 @@ def session_check(cfg):
             nrec += r["n"]
             handle(r, f"b{i}")
         log(f"[{prop}] {len(scs)} socket scenarios, {nrec} records linearized against the spec, {time.time()-t2:.0f}s")
+        if cfg.get("core_hist"):
+            # histories only the core API can produce (imports): executed by the real core, validated by Trace_Core
+            t3 = time.time()
+            hdr, hists = cfg["core_hist"](rnd, 24 if tier == "quick" else 400)
+            files = []
+            for ci in range(4):
+                path = os.path.join(d, f"req_core{ci}.ndjson")
+                with open(path, "w") as f:
+                    f.write(json.dumps(hdr) + "\n")
+                    for h in hists[ci::4]:
+                        for r_ in h:
+                            f.write(json.dumps(r_) + "\n")
+                        f.write('{"op":"reset"}\n')
+                files.append(path)
+            nb, res = run_and_validate(d, "core", files, "Trace_Core", known, 900)
+            collect(prop, res, known_seen, violations, "boundary")
+            nrec += nb
+            log(f"[{prop}] {len(hists)} core histories at the version boundary, {nb} records, {time.time()-t3:.0f}s")
         cov = {"states": max(1, st["distinct"]), "transitions": max(1, st["generated"]),
                "traces_validated_against_impl": len(scs), "samples": [scs[0]], "exhaustive": False,
                "trace_records_validated": nrec,
@@ -489,7 +507,9 @@ CHECKS["C17"] = session_check({"mc": "MC_Session", "mc_cfg": {"quick": "MC_Sessi
                                "gen": sess.gen_c17, "assumptions": SESSION_ASSUME})
 
 CHECKS["C02"] = session_check({"mc": "MC_C02", "mc_cfg": {"quick": "MC_C02.cfg", "thorough": "MC_C02_thorough.cfg"},
-                               "gen": sess.gen_c02, "assumptions": SESSION_ASSUME + ["cget/cset cycles of 2-4 unsynchronised sessions; no barriers"]})
+                               "gen": sess.gen_c02, "core_hist": gens.gen_c02_boundary,
+                               "assumptions": SESSION_ASSUME + ["cget/cset cycles of 2-4 unsynchronised sessions; no barriers",
+                                                                "u64 versions above 2^64-1001 are mapped onto 1999999000..2000000000 of the specification's integers"]})
 
 
 # ----------------------------------------------------------------------------- C20: client library
